@@ -9,7 +9,7 @@ import struct
 import sys
 import tempfile
 
-from vlib import basic
+from vlib import basic, translated
 
 LEVEL = 'proof'
 RULE = ('cipher: every (position mod 143, byte) pair in both directions plus byte strings of every length 0..300 and '
@@ -24,11 +24,18 @@ EXPLANATION = ('theorems (PcbV.Props.C15): cipher_bijection for any key tables a
                'counterexamples for the end-of-file byte that a tokenised LOAD keeps behind the program; '
                'correspondence: protect.py functions, CodeStream.skip_to, real SAVE file bytes and real LOAD results '
                '(buffer, size, protected flag) incl. damaged files vs the compiled Lean model; oracle: memory / LIST / '
-               'file comparisons through real sessions on disk and cassette, MERGE vs re-entry, main._convert vs SAVE')
+               'file comparisons through real sessions on disk and cassette, MERGE vs re-entry, main._convert vs SAVE'
+               '; source tie: the loop bodies of protect/unprotect are translated mechanically from the current '
+               'Python AST into PcbV.Gen.Translated (gen/py2lean.py), proved equal to protByte/unprotByte/nextIndex '
+               'on unbounded Python ints (translated_protStep_eq, translated_unprotStep_eq, translated_nextIndex_eq) '
+               'and compared with the real functions (vlib/translated.py)')
 TRUSTED_BASE = ['models PcbV.Model.Protect / PcbV.Model.SaveLoad are hand transcriptions of protect.py, Program.save/'
                 'load/rebuild_line_dict, BinaryFile framing and CodeStream.skip_to(END_LINE); KEY1/KEY2, magic bytes, '
                 'PLUS_BYTES and the REM token are regenerated from /repo (gen/tables_c15.py)',
-                'ASCII format: no theorem; covered by the oracle only, conditional on re-entry (property C17)']
+                'ASCII format: no theorem; covered by the oracle only, conditional on re-entry (property C17)',
+                'translator gen/py2lean.py + PcbV.PyInt (Python int semantics of % and ^ in Lean), validated by '
+                'vlib/translated.py against the real protect/unprotect and Python\'s own operators; it covers the two loop '
+                'bodies only (stream framing, SAVE/LOAD stay hand transcriptions)']
 ASSUMPTIONS = ['program images stay below 64K (struct.pack("<H") of the line offsets)',
                'the host file system returns the bytes that were written to a temp directory']
 
@@ -846,6 +853,7 @@ def cassette_part(ctx, runner):
 
 
 def run(ctx):
+    translated.check_protect(ctx)
     cipher_part(ctx)
     ctx.log('cipher done')
     skip_part(ctx)
